@@ -17,4 +17,5 @@ Spec == Init /\ [][Next]_cfg
 Holds == C17(cfg, SessionOutcome(cfg)) /\ C17_served(cfg, SessionOutcome(cfg))
 Emit == PrintT("@ROW@" \o ToJson([cfg |-> cfg, out |-> SessionOutcome(cfg), established |-> Established(cfg),
                                   groups |-> IF Established(cfg) THEN EstablishedGroups(cfg) ELSE NoGroups]))
+
 =============================================================================
